@@ -736,6 +736,12 @@ func (vc *VC) localVars(st *State, vars map[string]Val, before ssa.Instruction) 
 		ty := a.Type().(*types.Pointer).Elem()
 		vars[n] = Val{T: st.cells[a], S: vc.sortOf(ty), Ty: ty}
 	}
+	for fv, t := range st.fcells {
+		ty := fv.Type().(*types.Pointer).Elem()
+		if _, shadowed := best[fv.Name()]; !shadowed {
+			vars[fv.Name()] = Val{T: t, S: vc.sortOf(ty), Ty: ty}
+		}
+	}
 }
 
 // ancTerm builds inchain(P, x, q) for the parent-link array P of x's type in state st and emits, once per
